@@ -44,8 +44,9 @@ Print Assumptions declare_var_through_block_rejected.
    parameter list consists of plain parameters and of default-value expressions (references, and functions /
    arrows of the same kind, nested to any depth) such that no default value mentions a later parameter of its
    list or a name declared in the function body (the two shapes refuted below); Catch with plain parameters
-   that the catch block does not redeclare by var/function; Decl var / function / let-const-class / parameter /
-   catch parameter; Ref}: arbitrary nesting, shadowing at every level, use before declaration, hoisting of
+   that the catch block does not redeclare by var/function; Class bodies without a class-expression name
+   (methods, field values, computed keys, static blocks without var), also inside default values; Decl var /
+   function / let-const-class / parameter / catch parameter; Ref}: arbitrary nesting, shadowing at every level, use before declaration, hoisting of
    var/function through nested and sibling blocks and catch clauses, closures that use names declared later,
    default values that mention earlier parameters, outer bindings or free names (MarkFuncArgs / NumArgUses).
    For every such program without redeclaration error ([program_ok]) and fewer than 2^16 identifier
@@ -58,12 +59,13 @@ Print Assumptions declare_var_through_block_rejected.
      (3) an occurrence that is bound is a declared variable (Decl <> NoDecl) of that name;
      (4) Uses of the Var of an occurrence is the number of occurrences that share it.
    NOT covered by this theorem (hence _partial): loop heads (NumForDecls), default values outside the side
-   condition above, destructuring defaults in catch heads, var redeclaring a catch parameter, classes,
-   x => ... and the arrow cover grammar (UndeclareScope), function-expression names; these are checked by
+   condition above, destructuring defaults in catch heads, var redeclaring a catch parameter,
+   class-expression names, x => ... and the arrow cover grammar (UndeclareScope), function-expression names; these are checked by
    the correspondence runs and the oracle only, and /repo deviates from ECMAScript on several of them
    (KNOWN_FINDINGS.txt, keys c04-es:... and c04-reject:...).
    Example (hypotheses satisfiable, non-trivial partition): Main.example_hyps, Main.example_partition,
-   Main.example_d_hyps, Main.example_d_partition (default values). *)
+   Main.example_d_hyps, Main.example_d_partition (default values), Main.example_c_hyps,
+   Main.example_c_partition (classes). *)
 Theorem resolution_correct_partial :
   forall p : prog,
     core_d p = true -> program_ok p = true -> Z.of_nat (occurrences p) < 65536 ->
